@@ -1,14 +1,15 @@
 --------------------------- MODULE PipelineBudget ---------------------------
 (***************************************************************************)
 (* Batch validator (V) for the first clause of C10: every run of the         *)
-(* per-block pipeline (worker command `opt`: optimize + compare + keep or    *)
-(* revert, one block per command, its own killable process) terminates       *)
-(* within Budget(n) without an exception.  TLA+ cannot observe CPU time or   *)
+(* pipeline on a single block (worker command `c10`, one one-block document  *)
+(* per command through the real optimize_asm_in_asm_format, its own killable *)
+(* process) terminates within Budget(n) without an exception and writes the  *)
+(* output file.  TLA+ cannot observe CPU time or   *)
 (* memory: the harness measures wall-clock seconds and the peak resident     *)
 (* set of the worker process; this module only compares the recorded         *)
 (* numbers with Pipeline!BudgetMs / BudgetRssKb.                             *)
-(* A case is [id, n, wall_ms, rss_kb, killed, stage, exc]; stage = "" when   *)
-(* no exception left the pipeline, else the stage it escaped from.           *)
+(* A case is [id, n, wall_ms, rss_kb, killed, stage, exc, file]; stage = ""   *)
+(* when no exception left the pipeline, else the stage it escaped from.      *)
 (***************************************************************************)
 EXTENDS Pipeline, Json, IOUtils
 
@@ -19,6 +20,7 @@ VARIABLE c
 Verdict(cs) ==
   IF cs.killed THEN "killed: no termination within the budget"
   ELSE IF cs.stage # "" THEN "exception escapes " \o cs.stage \o " stage"
+  ELSE IF ~cs.file THEN "no output file"
   ELSE IF cs.wall_ms > BudgetMs(cs.n) THEN "time budget exceeded"
   ELSE IF cs.rss_kb > BudgetRssKb THEN "memory budget exceeded"
   ELSE "ok"
